@@ -1,10 +1,12 @@
 /-
-  SrcTieImplC03 — source ties (see SrcTieImpl.lean) for Ad, ad, hat, vee of SO2, C1, Tn, SE2, SO3, SE3.
+  SrcTieImplC03 — source ties (see SrcTieImpl.lean) for Ad, ad, hat, vee of SO2, C1, Tn, SE2, SO3, SE3,
+  Galilei, SE_K(3).
 -/
-import SmoothProps.SrcTieImpl
+import SmoothProps.SrcTieImplC01
 
 open Scalar Lin EigenSem
 
+set_option linter.unusedSectionVars false
 namespace SrcTieImpl
 variable {α : Type} [Scalar α]
 
@@ -35,5 +37,71 @@ theorem se3_Ad (g : Vec α 7) : ImplSrc.SE3.Ad g = SE3.Ad g := by
 theorem se3_hat (a : Vec α 6) : ImplSrc.SE3.hat a = SE3.hat a := by tie_mat
 theorem se3_vee (A : Mat α 4 4) : ImplSrc.SE3.vee A = SE3.vee A := by tie_vec
 theorem se3_ad (a : Vec α 6) : ImplSrc.SE3.ad a = SE3.ad a := by tie_mat
+
+/-! Galilei -/
+theorem galilei_Ad (g : Vec α 11) : ImplSrc.Galilei.Ad g = Galilei.Ad g := by
+  simp only [Galilei.Ad, memoM_eq]; tie_mat
+theorem galilei_ad (a : Vec α 10) : ImplSrc.Galilei.ad a = Galilei.ad a := by tie_mat
+theorem galilei_hat (a : Vec α 10) : ImplSrc.Galilei.hat a = Galilei.hat a := by tie_mat
+theorem galilei_vee (A : Mat α 5 5) : ImplSrc.Galilei.vee A = Galilei.vee A := by tie_vec
+
+/-! SE_K(3), every `k` -/
+theorem sek3_Ad {k : Nat} (g : Vec α (4 + 3 * k)) : ImplSrc.SEK3.Ad g = SEK3.Ad k g := by
+  simp only [ImplSrc.SEK3.Ad, SEK3.Ad, memoM_eq, so3_hat, so3_matrix, seg_gq]
+  rw [forLoop_blocks _ (SO3.matrix (SEK3.gq k g))
+    (fun i hi => mmul (SO3.hat (segment 3 (3 * i) g)) (SO3.matrix (SEK3.gq k g)))]
+  · rfl
+  · intro i hi M hM
+
+    rw [blockM_setBlock_same, blockM_setBlock_disj _ _ _ _ _ _ _ _ (by omega), hM, setBlock_setBlock_same,
+      blockM_setBlock_disj _ _ _ _ _ _ _ _ (by omega), hM]
+theorem sek3_ad {k : Nat} (a : Vec α (3 + 3 * k)) : ImplSrc.SEK3.ad a = SEK3.ad k a := by
+  simp only [ImplSrc.SEK3.ad, SEK3.ad, so3_hat, seg_tw]
+  rw [forLoop_blocks _ (SO3.hat (SEK3.tw k a)) (fun i hi => SO3.hat (segment 3 (3 * i) a))]
+  · rfl
+  · intro i hi M hM
+
+    rw [blockM_setBlock_disj _ _ _ _ _ _ _ _ (by omega), hM]
+theorem sek3_hat {k : Nat} (a : Vec α (3 + 3 * k)) : ImplSrc.SEK3.hat a = SEK3.hat k a := by
+  simp only [ImplSrc.SEK3.hat, SEK3.hat, so3_hat, seg_tw]
+  apply Mat.ext'; intro r c
+  rw [forLoop_setBlockCol_get]
+  simp only [setBlock, mzero, Mat.of, segment, Vec.of]
+  have hr := r.isLt; have hc := c.isLt
+  split_ifs <;> first | rfl | (exfalso; omega)
+theorem sek3_vee {k : Nat} (A : Mat α (3 + k) (3 + k)) : ImplSrc.SEK3.vee A = SEK3.vee k A := by
+  simp only [ImplSrc.SEK3.vee, SEK3.vee, so3_vee]
+  rw [forLoop_mkT _ _ (SO3.vee (blockM 3 3 0 0 A)) (fun r => setSegment_hi _ _ _ r _)]
+  simp only [blockCol, blockM, Nat.zero_add]
+
+/-! ### generic layer: `hat`, `vee`, `Ad()`, `ad`, `lie_bracket` of LieGroupBase (see SrcTieImpl.lean) -/
+section base
+variable (G : LieModel α)
+theorem base_hat (a : Vec α G.dof) : BaseSrc.hat G a = G.hat a := rfl
+theorem base_vee (A : Mat α G.dim G.dim) : BaseSrc.vee G A = G.vee A := rfl
+theorem base_Ad (h : G.ShortCut) (g : Vec α G.rep) : BaseSrc.Ad G g = G.Ad g := by
+  unfold BaseSrc.Ad
+  cases hc : G.comm
+  · rfl
+  · exact (h.Ad hc g).symm
+theorem base_ad (h : G.ShortCut) (a : Vec α G.dof) : BaseSrc.ad G a = G.ad a := by
+  unfold BaseSrc.ad
+  cases hc : G.comm
+  · rfl
+  · exact (h.ad hc a).symm
+/-- `lie_bracket`: for a non-commutative group the source and the model both compute `ad(a)·b` -/
+theorem base_lie_bracket (hc : G.comm = false) (a b : Vec α G.dof) : BaseSrc.lie_bracket G a b = G.bracket a b := by
+  unfold BaseSrc.lie_bracket BaseSrc.ad LieModel.bracket
+  rw [hc]; rfl
+/-- for a commutative group the source returns the literal zero vector; the model's `bracket` is `ad(a)·b` with
+    `ad(a) = 0` (`bracket_comm_model`), i.e. the sums `Σ_l 0·b_l` — equal to zero over ℝ and for finite floats, not
+    syntactically (and NaN instead of 0 for a non-finite `b`): a recorded deviation of the model, see DESIGN §8.1 -/
+theorem base_lie_bracket_comm (hc : G.comm = true) (a b : Vec α G.dof) : BaseSrc.lie_bracket G a b = vzero G.dof := by
+  unfold BaseSrc.lie_bracket
+  rw [hc]; rfl
+theorem bracket_comm_model (h : G.ShortCut) (hc : G.comm = true) (a b : Vec α G.dof) :
+    G.bracket a b = mulVec (mzero G.dof G.dof) b := by
+  unfold LieModel.bracket; rw [h.ad hc a]
+end base
 
 end SrcTieImpl
